@@ -2089,7 +2089,11 @@ class SourceCatalog:
         if self.isscalar:
             localbkg = localbkg[0]
         source_sum = np.array([np.sum(arr) for arr in self._data_values])
-        source_sum -= self.area.value * localbkg
+        # the number of unmasked pixels of *this* catalog's data;
+        # self.area is taken from the detection catalog (if input),
+        # whose image can have different non-finite pixels
+        npix = np.array([arr.size for arr in self._data_values])
+        source_sum -= npix * localbkg
         if self._data_unit is not None:
             source_sum <<= self._data_unit
         return source_sum
